@@ -253,12 +253,20 @@ def run(ctx):
         lf = ctx.anchor(F.method, "LeaderState", fname)
         if not lf:
             continue
-        mb = F.main_body(lf)
-        ups = calls_matching(mb, r"RaftRoleState::update_current_term$")
-        ctx.floor("C01-f", len(ups), 2, "update_current_term in LeaderState::%s" % fname)
-        sbf = [bi for bi, _ in calls_matching(mb, r"LeaderState::send_become_follower_event$")]
-        sbf += [bi for (bi, si, st) in agg_sites(mb, "InternalEvent", "BecomeFollower")]
-        for n, (bi, t) in enumerate(ups):
+        mb0 = F.main_body(lf)
+        # the function itself and the private LeaderState helpers it calls (a `step_down_for_higher_term` extracted from it)
+        cand = [mb0]
+        for (hbi, ht) in mb0.calls():
+            for tg in F.resolve_targets(ht):
+                if tg in F.bodies and tg != lf.id and strip_generics(self_type_of(F, tg) or "").endswith("LeaderState") and not F.bodies[tg].impl_of:
+                    hb_ = F.main_body(F.bodies[tg])
+                    if hb_ not in cand and calls_matching(hb_, r"RaftRoleState::update_current_term$"):
+                        cand.append(hb_)
+        allups = [(b_, bi, t) for b_ in cand for (bi, t) in calls_matching(b_, r"RaftRoleState::update_current_term$")]
+        ctx.floor("C01-f", len(allups), 1, "update_current_term in LeaderState::%s (or a LeaderState helper it calls)" % fname)
+        for n, (mb, bi, t) in enumerate(allups):
+            sbf = [x for x, _ in calls_matching(mb, r"LeaderState::send_become_follower_event$")]
+            sbf += [x for (x, si, st) in agg_sites(mb, "InternalEvent", "BecomeFollower")]
             # every path from the term update to a return passes a step-down event
             wit = must_pass(mb, bi, [], sbf, treat_exit_as_goal=True)
             # error exits through `?` are allowed: ignore witnesses that pass a FromResidual call
